@@ -315,7 +315,7 @@ def c04_compare_trace(ctx, spec, m, net, label):
     keep = []
     kinds, links = net["kinds"], net["links"]
     for b in brs:
-        nan_vs_zero = b["stage"] in ("balance", "nan") and "impl nan" in b["what"]
+        nan_vs_zero = b["stage"] in ("balance", "balance-timed", "nan") and "impl nan" in b["what"]
         undefined_vs_finite = b["stage"] == "nan" and "implementation flows are all finite" in b["what"]
         if nan_vs_zero or undefined_vs_finite:
             t = b["t"]
